@@ -298,6 +298,8 @@ CARRIERS: List[Carrier] = [
             elems=_cmp_elems, blank=_cmp_blank, refuse_re="requires an 'op'", elem_ops=False, tmpl0='x = \n'),
     Carrier('ifbody3', 'if t:  # hdr\n    a = 1  # ca\n\n    # pre b\n    b = 2\n    c = 3; d = 4\nz = 0\n', L0, 'body',
             'if t:\n    {}\nz = 0\n', ['a = 1', 'b = 2', 'c = 3', 'd = 4'], ['p = 5', 'q(6)'], sep='\n', tsep='\n    '),
+    Carrier('strstmts', 'if t:\n    b\"\"\"l1\n  l2\"\"\"\n    a = 1\n    \"\"\"s1\n      s2\"\"\"  # cs\nz = 0\n', L0, 'body',
+            'if t:\n    {}\nz = 0\n', ['b\"\"\"l1\n  l2\"\"\"', 'a = 1', '\"\"\"s1\n      s2\"\"\"'], ['p = 5', 'q(6)'], sep='\n', tsep='\n    '),
     Carrier('orelse2', 'if x:\n    pass\nelse:  # e\n    y = 0\n    z = 0\nw = 1\n', L0, 'orelse', 'if x:\n    pass\nelse:\n    {}\nw = 1\n', ['y = 0', 'z = 0'],
             ['if a:\n    b = 1', 'c = 2'], sep='\n', tsep='\n    ', tindent='    ', tmpl0='if x:\n    pass\nw = 1\n'),
     Carrier('elifchain', 'if x:\n    pass\nelif y:  # e\n    u = 0\nw = 1\n', L0, 'orelse', 'if x:\n    pass\nelse:\n    {}\nw = 1\n', ['if y:\n    u = 0'],
@@ -328,6 +330,9 @@ CARRIERS: List[Carrier] = [
     Carrier('cases', 'match v:\n    case 1:  # c1\n        pass\n    case 2: pass\n    # pre 3\n    case _:\n        pass\n', L0, 'cases',
             'match v:\n    {}\n', ['case 1:\n    pass', 'case 2: pass', 'case _:\n    pass'], ['case 7:\n    pass', 'case [8]:\n    pass'],
             sep='\n', tsep='\n    ', tindent='    '),
+    # replacements with the SAME UTF-8 length as what they replace but another character count (é -> pq), and nodes after them on the line
+    Carrier('uni_targets', 'é = ñ = [x, (y), ü]  # ç\n', L0, 'targets', '{} = [x, (y), ü]\n', ['é', 'ñ'], ['pq', 'rs'], sep=' = ', code_suffix=' =', tags=('utf8',)),
+    Carrier('uni_samebytes', 'w = [é, "ñ", (b), ü]  # ç\n', V0, 'elts', 'w = [{}]\n', ['é', '"ñ"', '(b)', 'ü'], ['pq', 'r.s'], tags=('utf8',)),
     Carrier('uni_list', 'ü = [é,  # ça\n     "ñ", b, 𝒳]\n', V0, 'elts', 'ü = [{}]\n', ['é', '"ñ"', 'b', '𝒳'], ['π', '"ж"'], tags=('utf8',)),
 ]
 CARRIER = {c.id: c for c in CARRIERS}
